@@ -799,3 +799,63 @@ pub fn dead_workers_are_infra(report: &Report, bad: &[WorkerOutcome]) {
         }
     }
 }
+
+
+// ---------------------------------------------------------------------------------------------
+// coverage-guided fuzzing (engine/fuzz): the proptest strategies are reused as decoders of the
+// fuzzer's bytes, so a structured fuzz input is sound by construction exactly like a proptest
+// case. proptest's pass-through RNG cannot be used for this: `prop_oneof!` forks the RNG for its
+// lazily generated alternatives, every fork halves the remaining bytes, an exhausted pass-through
+// RNG yields zeros, and rand 0.9's uniform sampling rejects zeros forever. Instead a chunk of the
+// input seeds a ChaCha RNG; callers split their input into one chunk per generated element
+// (operation, edit, ...) so that a byte mutation changes one element.
+
+/// the value a strategy produces when its random choices are seeded by the given bytes
+pub fn from_fuzz_bytes<S: proptest::strategy::Strategy>(s: &S, data: &[u8]) -> Option<S::Value> {
+    use proptest::strategy::ValueTree;
+    use proptest::test_runner::{Config, RngAlgorithm, TestRng, TestRunner};
+    let mut seed = [0u8; 32];
+    for (k, chunk) in seed.chunks_mut(8).enumerate() {
+        chunk.copy_from_slice(&hash_of(&(k as u8, data)).to_le_bytes());
+    }
+    let rng = TestRng::from_seed(RngAlgorithm::ChaCha, &seed);
+    let mut runner = TestRunner::new_with_rng(Config { failure_persistence: None, ..Config::default() }, rng);
+    s.new_tree(&mut runner).ok().map(|t| t.current())
+}
+
+/// one value per 8-byte chunk of the input (at least one, at most `max`)
+pub fn from_fuzz_chunks<S: proptest::strategy::Strategy>(s: &S, data: &[u8], max: usize) -> Vec<S::Value> {
+    if data.is_empty() {
+        return from_fuzz_bytes(s, data).into_iter().collect();
+    }
+    data.chunks(8).take(max).filter_map(|c| from_fuzz_bytes(s, c)).collect()
+}
+
+/// Records a failure found by a fuzz target as replay file (same format as `Report::fail`) in
+/// `$VERIF_FUZZ_FAILS` and aborts the process so that libFuzzer keeps the input.
+pub fn fuzz_failure(prop: &str, key: &str, msg: &str, case: J) -> ! {
+    let dir = std::env::var("VERIF_FUZZ_FAILS").unwrap_or_else(|_| "fuzz-fails".to_string());
+    let _ = std::fs::create_dir_all(&dir);
+    let j = json!({"property": prop, "key": key, "what": msg, "case": case, "found_by": "libFuzzer"});
+    let name = format!("{}/{:016x}.json", dir, hash_of(&j.to_string()));
+    let _ = std::fs::write(&name, serde_json::to_string_pretty(&j).unwrap());
+    eprintln!("FUZZ-FAIL property={prop} key={key} file={name} :: {msg}");
+    std::process::abort()
+}
+
+#[cfg(test)]
+mod fuzz_bytes_tests {
+    use super::*;
+    use proptest::prelude::*;
+
+    #[test]
+    fn seeded_generation_terminates_and_is_deterministic() {
+        let s = proptest::collection::vec((proptest::collection::vec(any::<u8>(), 0..12usize), any::<u16>(), 0..6usize, prop_oneof![Just(1u8), Just(2u8), 3u8..9]), 1..40);
+        for data in [&[][..], &[0x0a, 3, 8][..], &[0u8; 64][..], &[0xffu8; 64][..]] {
+            let v = from_fuzz_bytes(&s, data).expect("value");
+            assert!(!v.is_empty());
+            assert_eq!(Some(v), from_fuzz_bytes(&s, data));
+        }
+        assert_eq!(from_fuzz_chunks(&any::<u16>(), &[1u8; 20], 10).len(), 3);
+    }
+}
